@@ -112,7 +112,12 @@ func (c *ConfigManager) ReloadFromRaw(data []byte) (err error) {
 	// config hash don't include external labels
 	eLb := info.Config.GlobalConfig.ExternalLabels
 	info.Config.GlobalConfig.ExternalLabels = []labels.Label{}
-	hash, err := hashstructure.Hash(info.Config, hashstructure.FormatV2, nil)
+	// hashstructure skips unexported fields, e.g. the regular expressions of relabel configs,
+	// so the rendered config is hashed together with the parsed struct
+	hash, err := hashstructure.Hash(struct {
+		Config   *config.Config
+		Rendered string
+	}{info.Config, info.Config.String()}, hashstructure.FormatV2, nil)
 	if err != nil {
 		return errors.Wrapf(err, "get config hash")
 	}
